@@ -184,6 +184,13 @@ pub fn programs(tier: Tier) -> Vec<(Program, Mode, bool)> {
     for (n, c, present) in &curated {
         out.push((mk(format!("cur-{}", n), c, *present, false), Mode::Bounded(2), *present));
     }
+    // cold start: the cache directory does not exist yet, so the first publication attempt of each writer
+    // fails and the create-directory-and-retry path decides
+    for (n, c) in [("put-get|put-get", vec!["pg", "pg"]), ("ensure|ensure", vec!["e", "e"]), ("put|set-get", vec!["p", "sg"]), ("put|put|get", vec!["p", "p", "g"])] {
+        let mut p = mk(format!("cold-{}", n), &c, false, false);
+        p.create_write_dir = false;
+        out.push((p, Mode::Bounded(2), false));
+    }
     // maintenance firing below capacity must not disturb anything
     out.push((mk("fire-set|put-get".into(), &["s", "pg"], true, true), Mode::Bounded(2), true));
     out.push((mk("fire-ensure|ensure".into(), &["e", "e"], false, true), Mode::Bounded(2), false));
